@@ -1,0 +1,34 @@
+//go:build verif
+
+package stringx
+
+// Contracts for the deductive verifier in /verif (govc). Comment-only file: adds no code.
+
+// splitBy, rune by rune: a separator rune ends the current word (emitted only when non-empty) and is dropped or
+// starts the next word (remove = false); every other rune is appended to the current word.
+//@ func (String).splitBy
+//@   prop C20
+//@   opaque IsEmptyOrSpace
+//@   loop 1 iteration-ensures [separator-ends-the-word] ret(fn) ==> calls(fn) == 1 && calls(Len) == 1 && (len(list) == at_head(len(list)) + 1) == (ret(Len) != 0) && (len(list) == at_head(len(list)) || len(list) == at_head(len(list)) + 1) && (calls(WriteRune) == 1) == !remove && (calls(Reset) == 1) == (ret(Len) != 0)
+//@   loop 1 iteration-ensures [other-rune-continues-the-word] !ret(fn) ==> calls(fn) == 1 && calls(WriteRune) == 1 && calls(Reset) == 0 && len(list) == at_head(len(list))
+//@   loop 1 iteration-ensures [rune-written-is-the-one-tested] calls(WriteRune) == 1 ==> arg(WriteRune, 1) == arg(fn, 0)
+//@   ensures [blank-has-no-words] ret(IsEmptyOrSpace) ==> len(result) == 0 && calls(fn) == 0
+// ToCamel: split at '_' (dropped), every word title-cased, joined without separator.
+//@ func (String).ToCamel
+//@   prop C20
+//@   opaque splitBy, Title, From, Join
+//@   loop 1 invariant -1 <= rangeindex
+//@   loop 1 iteration-ensures [each-word-title-cased-in-order] calls(Title) == 1 && len(target) == at_head(len(target)) + 1 && target[at_head(len(target))] == ret(Title) && calls(From, at_head(list[rangeindex + 1])) == 1
+//@   ensures [split-at-underscore-dropping-it] calls(s.splitBy) == 1 && arg(s.splitBy, 2)
+//@   ensures [joined-without-separator] calls(strings.Join) == 1 && arg(strings.Join, 1) == "" && result == ret(strings.Join)
+//@ func (String).ToCamel$1
+//@   prop C20
+//@   ensures result == (r == 95)
+// ToSnake: split before upper-case runes (kept), every word lower-cased, joined with '_'.
+//@ func (String).ToSnake
+//@   prop C20
+//@   opaque splitBy, ToLower, From, Join
+//@   loop 1 invariant -1 <= rangeindex
+//@   loop 1 iteration-ensures [each-word-lower-cased-in-order] calls(ToLower) == 1 && len(target) == at_head(len(target)) + 1 && target[at_head(len(target))] == ret(ToLower) && calls(From, at_head(list[rangeindex + 1])) == 1
+//@   ensures [split-before-upper-case-keeping-it] calls(s.splitBy) == 1 && !arg(s.splitBy, 2) && arg(s.splitBy, 1) == unicode.IsUpper
+//@   ensures [joined-with-underscore] calls(strings.Join) == 1 && arg(strings.Join, 1) == "_" && result == ret(strings.Join)
